@@ -361,4 +361,138 @@ theorem candBy_iff (d : Dict) (rank : Nat → Nat) (h : Ranked d rank) (subs : N
       exact levelsG_complete subs (fun m => d.length - rank m) hr' _ _
         (fun y _ => by omega) s h1 k h2
 
+/-! ### the attribute layout lists exactly the entity and its supertypes -/
+
+theorem SupStar.trans {d : Dict} {a b c : Nat} (h1 : SupStar d a b) (h2 : SupStar d b c) : SupStar d a c := by
+  induction h1 with
+  | refl => exact h2
+  | head hs _ ih => exact SupStar.head hs (ih h2)
+
+theorem foldl_attr_mono (d : Dict) (f : Nat) (ih : ∀ seen n x, x ∈ seen → x ∈ attrOrderAux d f seen n) :
+    ∀ (l : List Nat) (seen : List Nat) (x : Nat), x ∈ seen → x ∈ l.foldl (fun s sp => attrOrderAux d f s sp) seen := by
+  intro l
+  induction l with
+  | nil => intro seen x h; exact h
+  | cons a t iht => intro seen x h; exact iht _ x (ih seen a x h)
+
+theorem attrOrderAux_mono (d : Dict) : ∀ (f : Nat) (seen : List Nat) (n x : Nat), x ∈ seen → x ∈ attrOrderAux d f seen n := by
+  intro f
+  induction f with
+  | zero => intro seen n x h; exact h
+  | succ f ih =>
+    intro seen n x h
+    simp only [attrOrderAux]
+    have h' := foldl_attr_mono d f ih (supsOf d n) seen x h
+    split
+    · exact h'
+    · exact List.mem_append_left _ h'
+
+theorem attrOrderAux_sound (d : Dict) : ∀ (f : Nat) (seen : List Nat) (n x : Nat),
+    x ∈ attrOrderAux d f seen n → x ∈ seen ∨ SupStar d n x := by
+  intro f
+  induction f with
+  | zero => intro seen n x h; exact Or.inl h
+  | succ f ih =>
+    intro seen n x h
+    simp only [attrOrderAux] at h
+    have hfold : ∀ (l : List Nat) (sn : List Nat), (∀ s ∈ l, s ∈ supsOf d n) →
+        x ∈ l.foldl (fun s sp => attrOrderAux d f s sp) sn → x ∈ sn ∨ SupStar d n x := by
+      intro l
+      induction l with
+      | nil => intro sn _ hx; exact Or.inl hx
+      | cons a t iht =>
+        intro sn hl hx
+        rcases iht _ (fun s hs => hl s (List.mem_cons_of_mem _ hs)) hx with h1 | h1
+        · rcases ih sn a x h1 with h2 | h2
+          · exact Or.inl h2
+          · exact Or.inr (SupStar.head (hl a (by simp)) h2)
+        · exact Or.inr h1
+    split at h
+    · exact hfold _ seen (fun _ hs => hs) h
+    · rcases List.mem_append.mp h with h1 | h1
+      · exact hfold _ seen (fun _ hs => hs) h1
+      · have : x = n := by simpa using h1
+        rw [this]; exact Or.inr SupStar.refl
+
+theorem attrOrderAux_complete (d : Dict) (rank : Nat → Nat) (hr : ∀ n s, s ∈ supsOf d n → rank s < rank n) :
+    ∀ (f : Nat) (seen : List Nat) (n x : Nat), rank n < f → SupStar d n x → x ∈ attrOrderAux d f seen n := by
+  intro f
+  induction f with
+  | zero => intro seen n x h; exact absurd h (Nat.not_lt_zero _)
+  | succ f ih =>
+    intro seen n x hf hs
+    simp only [attrOrderAux]
+    have mono := attrOrderAux_mono d f
+    cases hs with
+    | refl =>
+      split
+      · rename_i hc; simpa using hc
+      · simp
+    | head h1 h2 =>
+      rename_i s
+      have hfold : ∀ (l : List Nat) (sn : List Nat), (s ∈ l ∨ x ∈ sn) → (∀ t ∈ l, t ∈ supsOf d n) →
+          x ∈ l.foldl (fun s sp => attrOrderAux d f s sp) sn := by
+        intro l
+        induction l with
+        | nil =>
+          intro sn h _
+          rcases h with h | h
+          · cases h
+          · exact h
+        | cons a t iht =>
+          intro sn h hl
+          refine iht _ ?_ (fun u hu => hl u (List.mem_cons_of_mem _ hu))
+          rcases h with h | h
+          · rcases List.mem_cons.mp h with e | e
+            · refine Or.inr ?_
+              rw [← e]
+              exact ih sn s x (by have := hr n s h1; omega) h2
+            · exact Or.inl e
+          · exact Or.inr (mono sn a x h)
+      have := hfold (supsOf d n) seen (Or.inl h1) (fun _ h => h)
+      split
+      · exact this
+      · exact List.mem_append_left _ this
+
+/-- the entities whose attributes make up an instance's attribute list are exactly the entity and its supertypes (at any depth) -/
+theorem mem_attrOrder (d : Dict) (rank : Nat → Nat) (h : Ranked d rank) (k o : Nat) : o ∈ attrOrder d k ↔ SupStar d k o := by
+  unfold attrOrder
+  constructor
+  · intro hm
+    rcases attrOrderAux_sound d _ [] k o hm with h1 | h1
+    · cases h1
+    · exact h1
+  · intro hs
+    exact attrOrderAux_complete d rank h.sups _ [] k o (Nat.lt_succ_of_le (h.2 k)) hs
+
+/-- an attribute with the given descriptor that mentions `x`, in the decoded attribute list of a parameter list -/
+theorem zipAttrs_any (rd : List Nat) (f : Nat × Nat × Bool → List Nat) (o a x : Nat) :
+    ∀ (l : List (Nat × Nat × Bool)),
+      (zipAttrs rd l (l.map f)).any (fun t => t.owner == o && t.name == a && t.refs.contains x) = true ↔
+        ∃ q ∈ l, q.1 = o ∧ q.2.1 = a ∧ rd.contains a = false ∧ x ∈ f q := by
+  intro l
+  induction l with
+  | nil => simp [zipAttrs]
+  | cons t ts ih =>
+    obtain ⟨o', a', g⟩ := t
+    simp only [List.map_cons, zipAttrs, List.any_cons, Bool.or_eq_true, ih, List.mem_cons, exists_eq_or_imp]
+    constructor
+    · rintro (h | h)
+      · left
+        simp only [Bool.and_eq_true, beq_iff_eq] at h
+        obtain ⟨⟨h1, h2⟩, h3⟩ := h
+        subst h1; subst h2
+        cases hc : rd.contains a' with
+        | true => rw [hc] at h3; simp at h3
+        | false => rw [hc] at h3; exact ⟨rfl, rfl, rfl, by simpa using h3⟩
+      · exact Or.inr h
+    · rintro (⟨h1, h2, h3, h4⟩ | h)
+      · left
+        have e1 : o' = o := h1
+        have e2 : a' = a := h2
+        subst e1; subst e2
+        simp only [beq_self_eq_true, Bool.true_and, h3, Bool.false_eq_true, ↓reduceIte]
+        simpa using h4
+      · exact Or.inr h
+
 end StepModel.LazyRefs
